@@ -11,6 +11,27 @@ F_NOOVER, F_NOEXT, F_PAGE, F_NOSTATS, F_SOLID, F_SYNCBM = 1, 2, 4, 8, 16, 32
 E_NOSPACE, E_NOTALIGNED, E_SEG, E_INVARGS = 74001, 74003, 74004, 70017
 WCAP = 3 * PAGE  # at most this many bytes of a region carry a pattern
 GROW_CAP = 8 * PAGE  # bitmap bytes (262144 blocks) after which a script stops extending the bitmap
+EDGE_CAP = 4 * PAGE  # the boundary / full-file rounds grow the bitmap themselves only below this size
+# findings on the unchanged library that are tolerated by default and reported when named in VERIF_FSM_OPEN (comma list / all):
+#   assert : the range guard of _fsm_set_bit_status_lw is preceded by an assert() on the same caller-controlled condition,
+#            so a debug build aborts on an out-of-range release / status query instead of refusing it (fixes/fsm-setbit-assert.diff)
+OPEN = set(x for x in os.environ.get("VERIF_FSM_OPEN", "").replace("all", "assert").split(",") if x)
+M64 = (1 << 64) - 1
+
+
+def pat_byte(seed, i):
+    """the byte pattern of harness/h_fsm.c"""
+    z = (seed * 0x9E3779B97F4A7C15 + i * 0xBF58476D1CE4E5B9) & M64
+    z ^= z >> 29
+    return ((z * 0x94D049BB133111EB) & M64) >> 56
+
+
+def ff_seed(start):
+    """a pattern seed >= start whose first byte is 0xff (all eight bits set: a cleared bit is seen, a strict probe reads 1s)"""
+    s = start
+    while pat_byte(s, 0) != 0xff:
+        s += 1
+    return s
 
 
 def variant_of_source():
@@ -35,12 +56,16 @@ def roundup(x, v):
 class State:
     __slots__ = ("closed", "T", "n", "L", "B", "M", "F", "S", "A", "raw")
 
+    def nbits(self):
+        return self.M[1] * 8
+
 
 def parse_out(out):
     """-> (rc, [ints], State|None)"""
     head, sep, st = out.partition(" | ")
     f = head.split()
     am = re.search(r" A=(\d+)$", out)
+    st = re.sub(r" U=\d+(?= A=\d+$)", "", st)
     if not f or not re.match(r"^\d+$", f[0]):
         return None, [], None
     rc = int(f[0])
@@ -121,6 +146,7 @@ class Oracle:
         self.pat = {}     # addr -> (seed, nbytes) pattern the client wrote at addr
         self.st = None
         self.asserts = 0
+        self.users = 0    # failures of the assert that restates the range guard on caller-supplied arguments
         self.init_sig = None
         self.cfg = None   # (bpow, strict, notrim, mmapall)
         self.pre_close = None
@@ -140,6 +166,39 @@ class Oracle:
         for x, xl in self.live.items():
             if x != skip and a < x + xl and x < a + l:
                 return (x, xl)
+        return None
+
+    def ends_beyond(self, line):
+        """does the request of `line` name a block range that ends behind the last block the bitmap describes"""
+        f = line.split()
+        if self.st is None or self.st.closed or f[0] not in ("free", "realloc", "chk"):
+            return False
+        bp = self.st.M[3]
+        a, l = (int(f[2]), int(f[3])) if f[0] == "realloc" else (int(f[1]), int(f[2]))
+        return a >= 0 and l >= 0 and (a >> bp) + (l >> bp) > self.st.nbits()
+
+    def user_assert(self, line, u):
+        if self.ends_beyond(line):
+            # the release build refuses the request (checked by the caller of this function through rc and the state);
+            # a debug build aborts in assert() one line before the check that refuses it
+            self.count("out-of-range request trips assert(bmlen * 8 >= offset_bits + length_bits) (debug builds abort)")
+            if "assert" in OPEN:
+                self.bad("C10", "%s: a request that ends behind the bitmap fails an assert() of _fsm_set_bit_status_lw "
+                                "before the guard that refuses it (a debug build aborts instead of returning an error)" % line)
+        else:
+            self.bad("C11", "%s: the range assert of _fsm_set_bit_status_lw failed for a request inside the bitmap (count %d -> %d)" % (
+                line, self.users, u))
+        self.users = u
+
+    def unchanged(self, prev, s):
+        """None or a text saying what differs between two printed states (map, index, cache, geometry, file size, counters)"""
+        if prev is None or s is None or prev.closed or s.closed:
+            return None
+        for nm, x, y in (("bitmap", prev.B, s.B), ("free-extent tree", sorted(prev.T), sorted(s.T)), ("extent cache", prev.L, s.L),
+                         ("number of extents", prev.n, s.n), ("bmoff:bmlen:hdrlen:bpow", prev.M, s.M), ("file size", prev.F, s.F),
+                         ("allocation counters", prev.S, s.S)):
+            if x != y:
+                return "%s %s -> %s" % (nm, str(x)[:120], str(y)[:120])
         return None
 
     # ---- structural statements, after every operation that prints the state
@@ -180,7 +239,12 @@ class Oracle:
         n0 = len(self.v)
         f = line.split()
         c = f[0]
+        if c == "hdr":    # header read-back: compared with the model only (T2)
+            return 0
         rc, vals, s = parse_out(out)
+        um = re.search(r" U=(\d+) A=\d+$", out)
+        if um and c != "open" and int(um.group(1)) > self.users:
+            self.user_assert(line, int(um.group(1)))
         if rc is None:
             self.bad("C10", "implementation harness answered `%s` to `%s`" % (out[:80], line))
             return len(self.v) - n0
@@ -190,7 +254,7 @@ class Oracle:
             self.bad("C10", "%s: the bitmap area of the implementation is no longer readable (not mapped / outside the file)" % line)
             return len(self.v) - n0
         if c == "open":
-            self.live, self.pat, self.asserts = {}, {}, 0
+            self.live, self.pat, self.asserts, self.users = {}, {}, 0, 0
             self.cfg = (int(f[1]), f[4] == "1", f[5] == "1", f[6] == "1")
             if rc != 0 or s is None or s.closed:
                 self.bad("C10", "open failed rc=%d" % rc)
@@ -233,6 +297,16 @@ class Oracle:
             nlen, addr, olen, fl = int(f[1]), int(f[2]), int(f[3]), int(f[4])
             self.st = s
             bsz = self.bs()
+            if f[-1] == "invalid":   # generator's annotation: the old range does not lie inside the addressable space
+                self.count("realloc-invalid")
+                if rc == 0:
+                    self.bad("C10", "%s: reallocation of a range that ends behind the addressable space accepted -> %s" % (line, vals))
+                else:
+                    d = self.unchanged(prev, s)
+                    if d:
+                        self.bad("C10", "%s: refused with rc=%d but the state changed: %s" % (line, rc, d))
+                self.structure(s, line)
+                return len(self.v) - n0
             if rc == 0:
                 a, l = vals[0], vals[1]
                 want = roundup(nlen, bsz)
@@ -269,6 +343,8 @@ class Oracle:
                 elif prev and (sorted(s.T), s.B, s.L) != (sorted(prev.T), prev.B, prev.L):
                     self.bad("C10", "%s: release refused with rc=%d but the map changed: bitmap %s -> %s, tree %s -> %s" % (
                         line, rc, prev.B[:10], s.B[:10], sorted(prev.T)[:8], sorted(s.T)[:8]))
+                elif self.unchanged(prev, s):
+                    self.bad("C10", "%s: release refused with rc=%d but the state changed: %s" % (line, rc, self.unchanged(prev, s)))
             else:
                 if rc != 0:
                     self.bad("C10", "%s: release of a live range failed rc=%d" % (line, rc))
@@ -324,7 +400,26 @@ class Oracle:
             before, fsz = self.pre_close
             if before is not None:
                 if (s.M[1], s.M[2], s.M[3]) != (before.M[1], before.M[2], before.M[3]):
-                    self.bad("C11", "reopen: bmlen/hdrlen/bpow changed %s -> %s" % (before.M, s.M))
+                    self.bad("C11", "reopen: bmlen/hdrlen/bpow changed %s -> %s (blocks_num %d -> %d)" % (
+                        before.M, s.M, before.M[1] * 8, s.M[1] * 8))
+                # the same blocks are allocated as before the close (the allocator's own bitmap area aside: trim may move it)
+                def client_blocks(x):
+                    bz = 1 << x.M[3]
+                    own = (x.M[0] // bz, (x.M[0] + x.M[1]) // bz)
+                    out = []
+                    for o, l in runs_of(x.B)[1]:
+                        for a, b in ((o, min(o + l, own[0])), (max(o, own[1]), o + l)):
+                            if a < b:
+                                out.append((a, b))
+                    return merge(out)
+                if client_blocks(before) != client_blocks(s):
+                    self.bad("C11", "reopen: the set of allocated blocks differs from the one at close: %s -> %s" % (
+                        client_blocks(before)[:8], client_blocks(s)[:8]))
+                if not before.T:
+                    self.count("close+reopen of a file without a free block")
+                    if (before.M, before.B, before.F) != (s.M, s.B, s.F) or s.T:
+                        self.bad("C11", "reopen of a file that had no free block at close: bitmap area/file size %s F=%d -> %s F=%d, "
+                                        "free extents now %s" % (before.M, before.F, s.M, s.F, sorted(s.T)[:6]))
                 _, on = runs_of(s.B)
                 bsz = 1 << s.M[3]
                 last = (on[-1][0] + on[-1][1]) * bsz if on else 0
@@ -806,7 +901,7 @@ def gen_script(rng, impl, nops, focus, scripted=None):
 
 
 def strip_a(o):
-    return re.sub(r" A=\d+$", "", o)
+    return re.sub(r"( U=\d+)? A=\d+$", "", o)
 
 
 def worker(args):
